@@ -471,8 +471,49 @@ class Emitter(object):
         raise Unsupported('cast ' + op)
 
     def gep(self, bt, ops, fn):
+        # Peephole: a GEP that enters field 0 of Y through a pointer obtained by bitcasting X* to Y*,
+        # where field 0 of Y has type X (derived<-base casts, pl_list's end cell), is the same address
+        # as the original X*; using it keeps the access typed (a mismatched struct type makes CBMC
+        # rewrite the whole enclosing object through byte_extract on every store).
+        for _ in range(4):
+            b0 = ops[0]
+            if not (fn is not None and b0.k == 'local' and b0.a in fn.defs and len(ops) > 2):
+                break
+            d = fn.defs[b0.a]
+            if d.op != 'bitcast' or d.ops[0].t.k != 'ptr':
+                break
+            i0, i1 = ops[1], ops[2]
+            if not ((i0.k == 'zero' or (i0.k == 'int' and i0.a == 0)) and (i1.k == 'zero' or (i1.k == 'int' and i1.a == 0))):
+                break
+            if bt.k not in ('struct', 'lit'):
+                break
+            try:
+                f0 = self.elem_type(bt, 0)
+            except Unsupported:
+                break
+            X = d.ops[0].t.a
+            if f0.key() != X.key():
+                break
+            bt = X
+            ops = [d.ops[0], ops[1]] + list(ops[3:])
         base = ops[0]
         e = self.val(base, fn)
+        # Entering member 0 of a struct is the same address as the struct: express it as a cast to
+        # the member's type.  A pl_list end cell is a pl_basic_cell object addressed through a
+        # pl_cell* (whose member 0 is the pl_basic_cell base); with the cast CBMC sees a well-typed
+        # access in both cases instead of a byte_extract over the enclosing object.
+        while len(ops) > 2 and bt.k in ('struct', 'lit') and \
+                (ops[1].k == 'zero' or (ops[1].k == 'int' and ops[1].a == 0)) and \
+                (ops[2].k == 'zero' or (ops[2].k == 'int' and ops[2].a == 0)):
+            try:
+                f0 = self.elem_type(bt, 0)
+            except Unsupported:
+                break
+            if f0.k not in ('struct', 'lit') and len(ops) > 3:
+                break
+            e = '((%s*)%s)' % (self.ct(f0), e)
+            bt = f0
+            ops = [ops[0], ops[1]] + list(ops[3:])
         idx0 = ops[1] if len(ops) > 1 else None
         cur = bt
         if idx0 is None or (idx0.k == 'int' and idx0.a == 0) or idx0.k == 'zero':
@@ -705,6 +746,41 @@ static int ir_atexit(void) { return 0; }
 '''
 
 PRELUDE2 = r'''
+/* libm: under CBMC the transcendental functions are nondeterministic values constrained by a
+   sound envelope of the real function (libm itself is trusted, not encoded); natively they are libm. */
+#ifdef VERIF_CBMC
+double nondet_irm_double(void);
+static double ir_exp(double x) { double r = nondet_irm_double(); if(x != x) return x; __CPROVER_assume(r == r && r >= 0.0);
+  if(x > 709.79) return __builtin_inf(); if(x < -745.2) return 0.0; __CPROVER_assume(r < __builtin_inf());
+  if(x <= 0.0) __CPROVER_assume(r <= 1.0); if(x >= 0.0) __CPROVER_assume(r >= 1.0 && r >= 1.0 + x);
+  if(x <= 709.0 && x >= -700.0) __CPROVER_assume(r > 0.0);
+  /* staircase enclosure e^a <= exp(x) <= e^b for a <= x <= b (constants rounded outwards) */
+  if(x <= 2.0) __CPROVER_assume(r <= 7.3890561); if(x <= 5.0) __CPROVER_assume(r <= 148.41316); if(x <= 8.0) __CPROVER_assume(r <= 2980.958);
+  if(x <= 12.0) __CPROVER_assume(r <= 162754.8); if(x <= 20.0) __CPROVER_assume(r <= 485165196.0); if(x <= 40.0) __CPROVER_assume(r <= 2.3538527e17);
+  if(x <= 100.0) __CPROVER_assume(r <= 2.6881172e43); if(x <= 300.0) __CPROVER_assume(r <= 1.9424264e130);
+  if(x >= 2.0) __CPROVER_assume(r >= 7.389056); if(x >= 5.0) __CPROVER_assume(r >= 148.41315); if(x >= 8.0) __CPROVER_assume(r >= 2980.957);
+  if(x >= 12.0) __CPROVER_assume(r >= 162754.7); if(x >= 20.0) __CPROVER_assume(r >= 485165195.0); if(x >= 40.0) __CPROVER_assume(r >= 2.3538526e17);
+  if(x >= 100.0) __CPROVER_assume(r >= 2.6881171e43); if(x >= 300.0) __CPROVER_assume(r >= 1.9424263e130);
+  if(x >= -2.0) __CPROVER_assume(r >= 0.13533528); if(x >= -8.0) __CPROVER_assume(r >= 0.00033546262); if(x >= -20.0) __CPROVER_assume(r >= 2.0611536e-9);
+  return r; }
+static double ir_log(double x) { double r = nondet_irm_double(); if(x != x || x < 0.0) return __builtin_nan(""); if(x == 0.0) return -__builtin_inf();
+  if(x == __builtin_inf()) return x; __CPROVER_assume(r == r && r > -746.0 && r < 710.0); if(x >= 1.0) __CPROVER_assume(r >= 0.0 && r <= x - 1.0);
+  if(x <= 1.0) __CPROVER_assume(r <= 0.0); return r; }
+static double ir_sin(double x) { double r = nondet_irm_double(); if(x != x || x == __builtin_inf() || x == -__builtin_inf()) return __builtin_nan("");
+  __CPROVER_assume(r >= -1.0 && r <= 1.0); return r; }
+static double ir_pow(double x, double y) { double r = nondet_irm_double(); if(x > 0.0 && x < __builtin_inf() && y == y) { __CPROVER_assume(r == r && r >= 0.0);
+  if(x >= 1.0 && y <= 0.0) __CPROVER_assume(r <= 1.0 && r > 0.0); if(x >= 1.0 && y >= 0.0) __CPROVER_assume(r >= 1.0); } return r; }
+static double ir_sqrt(double x) { double r = nondet_irm_double(); if(x != x || x < 0.0) return __builtin_nan(""); if(x == 0.0 || x == __builtin_inf()) return x;
+  __CPROVER_assume(r == r && r > 0.0 && r < __builtin_inf()); if(x >= 1.0) __CPROVER_assume(r >= 1.0 && r <= x); else __CPROVER_assume(r <= 1.0 && r >= x); return r; }
+static double ir_exp2(double x) { return ir_pow(2.0, x); }
+#else
+#define ir_exp exp
+#define ir_log log
+#define ir_sin sin
+#define ir_pow pow
+#define ir_sqrt sqrt
+#define ir_exp2 exp2
+#endif
 typedef struct { u64 f0; u8 f1; } ir_ov64; typedef struct { u32 f0; u8 f1; } ir_ov32;
 '''
 
@@ -847,7 +923,38 @@ class FuncEmitter(object):
                 e = '((u8)(%s & 1))' % e
             self.assign(ins, ins.t, e)
         elif op == 'store':
-            self.w('*%s = %s;' % (self.V(ins.ops[1]), self.V(ins.ops[0])), ins.dbg)
+            val, ptr = ins.ops[0], ins.ops[1]
+            done_split = False
+            # A wide integer store through a pointer that was bitcast from an array of narrower
+            # integers (clang merges `int a[2] = {-1,-1}` into one i64 store): emit element stores so
+            # that CBMC keeps the elements as separate constants instead of a byte_update.
+            if val.t.k == 'int' and ptr.k == 'local' and ptr.a in getattr(self, 'alloca_agg', {}):
+                at, an = self.alloca_agg[ptr.a]
+                ew = at.b.a
+                if ew in (8, 16, 32) and val.t.a > ew and val.t.a % ew == 0 and at.a * ew >= val.t.a:
+                    tmp = 'sp_' + san(ptr.a) + '_%d' % len(self.lines)
+                    self.decl.append('  %s %s;' % (E.ct(val.t), tmp))
+                    self.w('%s = %s;' % (tmp, self.V(val)), ins.dbg)
+                    for k in range(val.t.a // ew):
+                        self.w('%s.a[%d] = (%s)(%s >> %d);' % (an, k, E.ct(at.b), tmp, k * ew))
+                    done_split = True
+            if not done_split and val.t.k == 'int' and ptr.k == 'local' and ptr.a in self.defs:
+                d = self.defs[ptr.a]
+                if d.op == 'bitcast' and d.ops[0].t.k == 'ptr' and d.ops[0].t.a.k == 'arr' and d.ops[0].t.a.b.k == 'int':
+                    at = d.ops[0].t.a
+                    ew = at.b.a
+                    if ew in (8, 16, 32) and val.t.a in (16, 32, 64) and val.t.a > ew and val.t.a % ew == 0 and at.a * ew >= val.t.a:
+                        n = val.t.a // ew
+                        src = self.V(d.ops[0])
+                        v = self.V(val)
+                        tmp = 'sp_' + san(ptr.a) + '_%d' % len(self.lines)
+                        self.decl.append('  %s %s;' % (E.ct(val.t), tmp))
+                        self.w('%s = %s;' % (tmp, v), ins.dbg)
+                        for k in range(n):
+                            self.w('(*%s).a[%d] = (%s)(%s >> %d);' % (src, k, E.ct(at.b), tmp, k * ew))
+                        done_split = True
+            if not done_split:
+                self.w('*%s = %s;' % (self.V(ptr), self.V(val)), ins.dbg)
         elif op == 'getelementptr':
             e, rt = E.gep(ins.x, ins.ops, self)
             self.assign(ins, PTR(rt), e)
@@ -864,8 +971,18 @@ class FuncEmitter(object):
                 else:
                     self.assign(ins, PTR(ins.t), '(%s*)ir_new(sizeof(%s) * (u64)%s)' % (E.ct(ins.t), E.ct(ins.t), self.V(cnt)))
             else:
-                self.decl.append('  %s %s;' % (E.ct(ins.t), an))
-                self.assign(ins, PTR(ins.t), '&' + an)
+                agg = self.first_cast.get(ins.dst)
+                if ins.t.k == 'int' and agg is not None and agg.k == 'arr' and agg.b.k == 'int' and \
+                        E.sizeof(agg) and E.sizeof(agg)[0] == E.sizeof(ins.t)[0]:
+                    # SROA typed this slot as one wide integer although the code uses it as a small
+                    # array: declare the array and view it as the integer (keeps element accesses typed)
+                    self.decl.append('  %s %s;' % (E.ct(agg), an))
+                    self.alloca_agg = getattr(self, 'alloca_agg', {})
+                    self.alloca_agg[ins.dst] = (agg, an)
+                    self.assign(ins, PTR(ins.t), '(%s*)&%s' % (E.ct(ins.t), an))
+                else:
+                    self.decl.append('  %s %s;' % (E.ct(ins.t), an))
+                    self.assign(ins, PTR(ins.t), '&' + an)
         elif op == 'phi':
             self.declare(ins.dst, ins.t)
         elif op == 'select':
@@ -955,7 +1072,46 @@ class FuncEmitter(object):
                     typed = self.origin_type(args[0], N)
                     if typed is None and fnm != 'memset':
                         typed = self.origin_type(args[1], N)
-                if typed is not None and fnm == 'memset' and args[1].k == 'int' and args[1].a == 0:
+                tl = None
+                if typed is None and args[2].k == 'int' and 0 < args[2].a <= 16384:
+                    N = args[2].a
+                    if fnm == 'memset' and args[1].k == 'int':
+                        tl = self.tiles(args[0], N)
+                        if tl is not None:
+                            bv = args[1].a & 0xff
+                            ok = True
+                            stm = []
+                            for acc, ty in tl[2]:
+                                if E.is_agg(ty):
+                                    if bv != 0:
+                                        ok = False; break
+                                    stm.append('%s = (%s){0};' % (acc, E.ct(ty)))
+                                elif ty.k == 'int':
+                                    w = max(8, ty.a)
+                                    stm.append('%s = %s;' % (acc, E.intlit(ty.a, int.from_bytes(bytes([bv]) * (w // 8), 'little'))))
+                                elif bv == 0:
+                                    stm.append('%s = (%s)0;' % (acc, E.ct(ty)))
+                                else:
+                                    ok = False; break
+                            if ok:
+                                for st in stm:
+                                    self.w(st, ins.dbg)
+                                done = True
+                    elif fnm != 'memset':
+                        td = self.tiles(args[0], N)
+                        ts = self.tiles(args[1], N)
+                        if td is not None and ts is not None and len(td[2]) == len(ts[2]) and \
+                                all(a[1].key() == b[1].key() for a, b in zip(td[2], ts[2])):
+                            if len(td[2]) == 1:
+                                self.w('%s = %s;' % (td[2][0][0], ts[2][0][0]), ins.dbg)
+                            else:
+                                # copy through temporaries only if the ranges could overlap (memmove); plain order is fine for memcpy
+                                for (da, dt), (sa, st_) in zip(td[2], ts[2]):
+                                    self.w('%s = %s;' % (da, sa), ins.dbg)
+                            done = True
+                if done:
+                    pass
+                elif typed is not None and fnm == 'memset' and args[1].k == 'int' and args[1].a == 0:
                     ctn = E.ct(typed)
                     if E.is_agg(typed):
                         self.w('*(%s*)%s = (%s){0};' % (ctn, A[0], ctn), ins.dbg)
@@ -1001,6 +1157,8 @@ class FuncEmitter(object):
                 k = name.split('.')[1]
                 suf = 'f' if name.endswith('f32') else ''
                 k = {'maxnum': 'fmax', 'minnum': 'fmin'}.get(k, k)
+                if not suf:
+                    k = {'exp': 'ir_exp', 'log': 'ir_log', 'sin': 'ir_sin', 'pow': 'ir_pow', 'sqrt': 'ir_sqrt', 'exp2': 'ir_exp2'}.get(k, k)
                 expr = '%s%s(%s)' % (k, suf, ', '.join(A))
             elif name.startswith('llvm.bswap.'):
                 t = args[0].t
@@ -1071,7 +1229,8 @@ class FuncEmitter(object):
                     cargs.append(E.sx(a.t, s))
                 else:
                     cargs.append(s)
-            expr = '%s(%s)' % (name, ', '.join(cargs))
+            cname_ = {'exp': 'ir_exp', 'log': 'ir_log', 'sin': 'ir_sin', 'pow': 'ir_pow', 'sqrt': 'ir_sqrt', 'exp2': 'ir_exp2'}.get(name, name)
+            expr = '%s(%s)' % (cname_, ', '.join(cargs))
             if name == 'malloc' and ins.dst is not None and args[0].k == 'int':
                 ty = self.first_cast.get(ins.dst)
                 sz = E.sizeof(ty) if ty is not None and ty.k not in ('void', 'func', 'opaque') else None
@@ -1121,6 +1280,146 @@ class FuncEmitter(object):
                 self.assign(ins, rt, expr)
         if ins.op == 'invoke':
             self.w(self.goto(b.name, ins.x['normal']))
+
+    def origin(self, v, depth=0):
+        """(C expression of type Tb*, Tb, constant index path) describing where the i8* value v points"""
+        E = self.E
+        if depth > 6:
+            return None
+        if v.k == 'local' and v.a in self.defs:
+            d = self.defs[v.a]
+            if d.op == 'bitcast' and d.ops[0].t.k == 'ptr':
+                src = d.ops[0]
+                if src.t.a.k == 'int' and src.t.a.a == 8:
+                    return self.origin(src, depth + 1)
+                o = self.origin(src, depth + 1)
+                if o is not None:
+                    return o
+                if src.t.a.k in ('void', 'func', 'opaque'):
+                    return None
+                return (self.V(src), src.t.a, [])
+            if d.op == 'getelementptr':
+                ops = d.ops
+                bt = d.x
+                if bt.k not in ('struct', 'lit', 'arr'):
+                    return None
+                # re-base at the last non-constant index
+                idxs = ops[1:]
+                last_nc = -1
+                for i, ix in enumerate(idxs):
+                    if ix.k not in ('int', 'zero'):
+                        last_nc = i
+                if last_nc <= 0 and (idxs[0].k == 'zero' or (idxs[0].k == 'int' and idxs[0].a == 0)) and last_nc < 0:
+                    path = [(ix.a if ix.k == 'int' else 0) for ix in idxs[1:]]
+                    return (self.V(ops[0]), bt, path)
+                # prefix GEP up to and including the last non-constant index (or non-zero first index)
+                cut = max(last_nc, 0) + 1
+                pre_e, pre_t = E.gep(bt, [ops[0]] + list(idxs[:cut]), self)
+                rest = idxs[cut:]
+                if pre_t.k in ('void', 'func', 'opaque'):
+                    return None
+                path = [(ix.a if ix.k == 'int' else 0) for ix in rest]
+                return (pre_e, pre_t, path)
+            return None
+        if v.k == 'cexpr' and v.a == 'bitcast' and v.b[1][0].t.k == 'ptr':
+            src = v.b[1][0]
+            if src.t.a.k in ('void', 'func', 'opaque'):
+                return None
+            o = self.origin(src, depth + 1)
+            return o if o is not None else (self.V(src), src.t.a, [])
+        if v.k == 'cexpr' and v.a == 'getelementptr':
+            bt, ops = v.b
+            if all(o.k in ('int', 'zero') for o in ops[1:]) and (ops[1].k == 'zero' or ops[1].a == 0) and bt.k in ('struct', 'lit', 'arr'):
+                return (self.V(ops[0]), bt, [(o.a if o.k == 'int' else 0) for o in ops[2:]])
+        if v.k == 'global' and v.t.k == 'ptr' and v.t.a.k in ('struct', 'lit', 'arr'):
+            return (self.V(v), v.t.a, [])
+        return None
+
+    def path_offset(self, t, path):
+        E = self.E
+        off = 0
+        for ix in path:
+            if t.k in ('struct', 'lit'):
+                b = E.struct_body(t)
+                if b is None:
+                    return None
+                o = 0
+                for j, mt in enumerate(b.b):
+                    r = E.sizeof(mt)
+                    if r is None:
+                        return None
+                    ma = 1 if b.a else r[1]
+                    o = (o + ma - 1) // ma * ma
+                    if j == ix:
+                        break
+                    o += r[0]
+                off += o
+                t = b.b[ix]
+            elif t.k == 'arr':
+                r = E.sizeof(t.b)
+                if r is None:
+                    return None
+                off += r[0] * ix
+                t = t.b
+            else:
+                return None
+        return off
+
+    def cover(self, t, acc, off, start, end, out, budget):
+        """collect (accessor, type) of whole sub-objects of t (at byte offset off) tiling [start,end)"""
+        E = self.E
+        r = E.sizeof(t)
+        if r is None:
+            return False
+        size = r[0]
+        if size == 0 or off >= end or off + size <= start:
+            return True
+        if start <= off and off + size <= end:
+            out.append((acc, t))
+            return len(out) <= budget
+        if t.k in ('struct', 'lit'):
+            b = E.struct_body(t)
+            if b is None:
+                return False
+            o = 0
+            for j, mt in enumerate(b.b):
+                rr = E.sizeof(mt)
+                if rr is None:
+                    return False
+                ma = 1 if b.a else rr[1]
+                o = (o + ma - 1) // ma * ma
+                if not self.cover(mt, acc + '.f%d' % j, off + o, start, end, out, budget):
+                    return False
+                o += rr[0]
+            return True
+        if t.k == 'arr':
+            rr = E.sizeof(t.b)
+            if rr is None or rr[0] == 0:
+                return False
+            first = max(0, (start - off) // rr[0])
+            last = min(t.a, (end - off + rr[0] - 1) // rr[0])
+            if last - first > 600:
+                return False
+            for i in range(first, last):
+                if not self.cover(t.b, acc + '.a[%d]' % i, off + i * rr[0], start, end, out, budget):
+                    return False
+            return True
+        return False   # a scalar that is only partially covered
+
+    def tiles(self, v, n):
+        o = self.origin(v)
+        if o is None:
+            return None
+        e, t, path = o
+        off = self.path_offset(t, path)
+        if off is None:
+            return None
+        out = []
+        if not self.cover(t, '(*%s)' % e, 0, off, off + n, out, 700):
+            return None
+        if not out:
+            return None
+        return (t, off, out)
 
     def origin_type(self, v, size):
         """For an i8* operand of memcpy/memset: a type T with sizeof(T)==size that the pointer
